@@ -4,7 +4,9 @@ Called from harness/c02.py's run(). Streams:
  * the hand matcher of `whole_span` (`c01.whole`) against the real `regex` engine with the pattern read from
    spec.md at run time and the real `get_bindings`, on flat ASTs of generated programs and bounded-exhaustively on
    token-level line pools;
- * on every real tree: the hypotheses `treeOk2` and `PreorderMonotone` (driver, on the tweaked tree); when they hold,
+ * on every real tree (never skipped): every `node:` span and the `whole_span` span computed by the real code must be
+   valid line ranges (1 <= start <= end <= number of lines); separately reported: the hypotheses `treeOk2` and `lastDescMono` (line of a positioned node <= line of its last positioned
+   strict descendant in dump order) (driver, on the tweaked tree); when they hold,
    every `node:` span and the `whole_span` span computed by the real code must satisfy start <= end, `whole_span`
    must yield exactly one occurrence spanning (first positioned line, last positioned line in dump order).
 """
@@ -93,7 +95,11 @@ def stream(ctx, drv):
         n, m, b = compare("tree:whole_span-matcher-programs", lines, hash(src))
         info = drv.call("c01.tree_span", tree=fe.export(tree))
         ctx.dist("tree: treeOk2 " + ("holds" if info["wf2"] else "FAILS"))
-        ctx.dist("tree: PreorderMonotone " + ("holds" if info["monotone"] else "FAILS"))
+        ctx.dist("tree: treeOk3 (hypothesis of C02_whole_span_exists / C02_meta_program_exactly_once) " + ("holds" if info["wf3"] else "FAILS"))
+        ctx.dist("tree: lastDescMono (hypothesis of C02_node_span) " + ("holds" if info["monotone"] else "FAILS"))
+        ctx.dist("tree: PreorderMonotone (former, stronger hypothesis) " + ("holds" if info["monotone_preorder"] else "FAILS"))
+        if info["wf2"] and not info["wf3"] and not any(n.startswith("lead: treeOk3") for n in ctx.notes):
+            ctx.notes.append("lead: treeOk3 fails although treeOk2 holds: " + src[:300])
         has_pos_string = any(isinstance(x, ast.Constant) and isinstance(x.value, (str, bytes)) and "_pos=" in repr(x.value)
                              for x in ast.walk(tree))
         sig = SIG_POSSTR if has_pos_string else None
@@ -102,13 +108,20 @@ def stream(ctx, drv):
             ctx.violations.append({"what": "whole_span does not yield exactly one occurrence for a program with a positioned node",
                                    "signature": sig, "replay": {"kind": "tree-whole-span", "source": src, "occurrences": n}})
             continue
-        if not (info["wf2"] and info["monotone"]):
-            continue
+        # the span checks below are made on EVERY tree; the status of the hypotheses is only reported
+        hyp = bool(info["wf2"] and info["monotone"])
+        nlines = src.rstrip("\n").count("\n") + 1
         # C02_whole_span: (first positioned line, last positioned line in dump order), start <= end
         if "bindings" in b and b["bindings"]:
             _, s, e, _ = b["bindings"][0]
             exp_end = info["last"] if info["count"] >= 2 else info["first"]
-            if (s, e) != (info["first"], exp_end) or s > e:
+            ctx.count("tree:whole-span-checked", None, n=1)
+            if s > e or s < 1 or e > nlines:
+                ctx.violations.append({"what": "the whole_span occurrence is not a valid line range of the program",
+                                       "signature": sig,
+                                       "replay": {"kind": "tree-whole-span", "source": src, "span": [s, e], "lines": nlines,
+                                                  "hypotheses_hold": hyp}})
+            elif (s, e) != (info["first"], exp_end) and hyp:
                 ctx.violations.append({"what": "the whole_span occurrence is not (first positioned line, last positioned line)",
                                        "signature": sig,
                                        "replay": {"kind": "tree-whole-span", "source": src, "span": [s, e],
@@ -122,11 +135,13 @@ def stream(ctx, drv):
             for mm in node_pat.finditer(text, overlapped=True):
                 for name, span in pp.get_bindings("node", mm.capturesdict()):
                     ctx.count("tree:node-spans", None, n=1)
-                    if span.start > span.end:
-                        ctx.violations.append({"what": f"{name} spans {span.start}-{span.end} although line numbers are "
-                                                       "non-decreasing in pre-order", "signature": sig,
+                    if span.start > span.end or span.start < 1 or span.end > nlines:
+                        ctx.dist("tree: invalid node span with hypotheses " + ("holding" if hyp else "failing"))
+                        ctx.violations.append({"what": f"{name} spans {span.start}-{span.end} of a {nlines}-line program",
+                                               "signature": sig,
                                                "replay": {"kind": "tree-node-span", "source": src, "label": name,
-                                                          "span": [span.start, span.end]}})
+                                                          "span": [span.start, span.end], "lines": nlines,
+                                                          "hypotheses_hold": hyp}})
                         raise StopIteration
         except (ValueError, StopIteration):
             pass
